@@ -99,7 +99,13 @@ fn oracle(ctx: &Ctx, d: &Delivery, v: &Validation, out: &mut Out) {
                 out.oracle_fail("C07:every-stored-field-owner-signed", &hist, &format!("scratchpad stored at {key} with a data_encoding its owner never signed, although the delivered one carried the owner's: {desc}"));
             }
         }
-        let hyp = if fam(desc) == 3 { p.acked_before } else { p.acked_before || p.cached_before };
+        // chunks and registers decide on `RecordStoreHasKey` (the index): they need every accepted write acknowledged
+        let hyp = if matches!(fam(desc), 0 | 3) { p.acked_before } else { p.acked_before || p.cached_before };
+        if fam(desc) == 0 && key % 3 != 0 {
+            // known finding K-f5: a Chunk whose bytes are an owner's public key / a register's meta ‖ pk is stored under
+            // that owner-derived key (no kind tag in an address)
+            out.count("known:K-f5-cross-kind-key-squat:stored");
+        }
         let stale = |clause: &str, what: String, out: &mut Out| {
             if hyp {
                 out.oracle_fail(clause, &hist, &what);
